@@ -31,6 +31,7 @@ def run(rep: core.Report):
     _r13c(rep, tus)
     _r13e(rep)
     _r13f(rep, tus)
+    tolerance_degree(rep, "R13f.tol")
     _r13g(rep)
     from rules import c13_abi, c13_bounds, c13_stride
 
@@ -426,6 +427,43 @@ def _r13f(rep, tus):
 # ---------------------------------------------------------------------------
 # checker self-test catalogue (thorough tier)
 # ---------------------------------------------------------------------------
+
+
+
+def tolerance_degree(rep, rid):
+    """The shortest-vector kernels call two images equidistant when their distances differ by less than symprec
+    (shared by C13 R13f and C03 R03f)."""
+    rep.rule(rid, "equidistance test of the shortest-vector kernels: the quantity compared is a distance (the accumulated squared length goes through sqrt before the search) and the tolerance is symprec to the first power -- |d1 - d2| < symprec as documented, not a test on squared lengths, which is tighter by the factor (d1 + d2) / symprec and drops images whose coordinates agree only to the precision of a structure file", 2)
+    tu = cast.load("c/phonopy.c", openmp=False)
+    for nm in ("phpy_set_smallest_vectors_sparse", "phpy_set_smallest_vectors_dense"):
+        fn = tu.functions.get(nm)
+        if fn is None:
+            raise AnalysisError(f"anchor vanished: {nm}")
+        tol_par = [p_["name"] for p_ in cast.params(fn) if "double" in cast.qtype(p_) and "*" not in cast.qtype(p_) and "[" not in cast.qtype(p_)]
+        conds = []
+        for x in cast.walk(fn):
+            if x.get("kind") == "IfStmt":
+                c = cast.strip(cast.kids(x)[0])
+                if c.get("kind") == "BinaryOperator" and c.get("opcode") in ("<", "<=") and cast.strip(cast.kids(c)[0]).get("kind") == "BinaryOperator" and cast.strip(cast.kids(c)[0]).get("opcode") == "-" and any(t in cast.text(cast.kids(c)[1]) for t in tol_par):
+                    conds.append(c)
+        if len(conds) != 1:
+            raise AnalysisError(f"{nm}: {len(conds)} tie tests of the form 'a - b < tolerance' found, 1 expected")
+        c = conds[0]
+        lhs, rhs = cast.kids(c)
+        cell = cast.strip(cast.kids(cast.strip(lhs))[0])
+        base = cast.text(cell).split("[")[0]
+        try:
+            deg = sp.Poly(sp.sympify(cast.text(rhs).replace(" ", ""), locals={t: sp.Symbol(t) for t in tol_par}), *[sp.Symbol(t) for t in tol_par]).total_degree()
+        except Exception:
+            deg = None
+        rooted = [x for x in cast.walk(fn) if x.get("kind") == "BinaryOperator" and x.get("opcode") == "=" and cast.text(cast.kids(x)[0]).split("[")[0] == base
+                  and cast.strip(cast.kids(x)[1]).get("kind") == "CallExpr" and cast.callee_name(cast.strip(cast.kids(x)[1])) == "sqrt" and cast.text(cast.call_args(cast.strip(cast.kids(x)[1]))[0]).split("[")[0] == base]
+        squares = [x for x in cast.walk(fn) if x.get("kind") == "CompoundAssignOperator" and x.get("opcode") == "+=" and cast.text(cast.kids(x)[0]).split("[")[0] == base]
+        if not squares:
+            raise AnalysisError(f"{nm}: the accumulation of the squared length into '{base}' vanished")
+        ok = bool(rooted) and deg == 1
+        rep.instance(rid, "c/phonopy.c", nm, f"tie test {cast.text(c)}; sqrt applied to {base}: {bool(rooted)}; degree of the tolerance: {deg}", ok,
+                     f"the tie test compares {'squared lengths' if not rooted else 'distances'} with a tolerance of degree {deg} in {tol_par}: two images count as equidistant only when their squared lengths agree to symprec^2, i.e. their distances to about symprec^2 / (2 d) -- images that are equivalent up to the precision of the input coordinates are dropped, the multiplicities become asymmetric and the spectrum loses the point-group invariance", line=tu.line(c))
 
 
 def _r13g(rep):
